@@ -13,6 +13,21 @@ TB_VALUE = TB_COMMON + [
 ]
 
 PROPS = {
+    "C05": {
+        "n_quick": 420, "n_thorough": 8000,
+        "check_fn": "k05_check",
+        "gen_obligations": 1,
+        "rule": "builder call sequences of 0-5 calls (not-null, null, lower/upper numeric bounds inclusive or exclusive incl. the shared infinities and unknown bounds, "
+                "length bounds, full prefixes) on unrefined/refined unknown, known, null and marked values of 10 types; Includes of every result range against a candidate "
+                "pool per type; range accessors; SafeKnownPrefix on 0-6 symbol prefixes over an alphabet of combining marks, Hangul jamo, emoji modifiers, ZWJ, regional "
+                "indicators, CR/LF and ASCII delimiters with the library answers shipped as tables; non-trivial = at least one call / non-empty prefix",
+        "trusted_base": TB_VALUE + ["x/text NFC (Normalize, LastBoundary) and go-textseg cluster scanning are oracles: their answers are shipped with each case; the two laws the prefix theorem assumes are tested on every run",
+                                    "translator: vh xlate reads the delimiter runes of sequenceMustEndGraphemeCluster from /repo with go/ast into coq/Gen/Consts.v"],
+        "assumptions": ["strings in builder cases are NFC-stable (normalisation is the identity on them)"],
+        "refuted": ["C05_far_infinity_refuted (KF-C05-5)"],
+        "partial": ["faithfulness of numeric bounds (tighter-of-two with inclusive/exclusive ties) is checked by the interval oracle and the correspondence on every generated sequence; theorems cover nullness, length bounds, known values, the dynamic value and the prefix",
+                    "C05_safe_prefix_partial is relative to two laws of the Unicode libraries (tested, not proved)"],
+    },
     "C03": {
         "n_quick": 200, "n_thorough": 6000,
         "check_fn": "k03_check",
